@@ -92,7 +92,10 @@ func (ctx *Ctx) WE() *WE {
 	if v, ok := ctx.cache["we"]; ok {
 		return v.(*WE)
 	}
-	w := newWE(ctx.P)
+	if ctx.P.we == nil {
+		ctx.P.we = newWE(ctx.P)
+	}
+	w := ctx.P.we
 	ctx.cache["we"] = w
 	return w
 }
@@ -672,4 +675,175 @@ func (w *WE) ReturnsFresh(f *ssa.Function) (bool, string) {
 		}
 	}
 	return true, ""
+}
+
+// FieldsWritten: the fields of the struct pointed to by parameter idx of fn
+// that fn (or a module callee it hands the pointer to) may write, including
+// memory reachable through those fields. precise=false when the pointee may
+// be overwritten as a whole or escapes to code without a summary.
+func (w *WE) FieldsWritten(fn *ssa.Function, idx int) (fields []string, precise bool) {
+	set := map[string]bool{}
+	ok := w.fieldsWritten(fn, idx, set, map[string]bool{})
+	for f := range set {
+		fields = append(fields, f)
+	}
+	sort.Strings(fields)
+	return fields, ok
+}
+
+func (w *WE) fieldsWritten(fn *ssa.Function, idx int, out map[string]bool, busy map[string]bool) bool {
+	key := fmt.Sprintf("%p/%d", fn, idx)
+	if busy[key] {
+		return true
+	}
+	busy[key] = true
+	if idx >= len(fn.Params) || len(fn.Blocks) == 0 {
+		return false
+	}
+	par := fn.Params[idx]
+	precise := true
+	// fieldOf: which field of *par does the address/value v lead through?
+	// returns ("", false) when v does not derive from par, ("", true) when it
+	// is par itself (or the whole pointee).
+	var fieldOf func(v ssa.Value, seen map[ssa.Value]bool) (string, bool)
+	fieldOf = func(v ssa.Value, seen map[ssa.Value]bool) (string, bool) {
+		if seen[v] {
+			return "", false
+		}
+		seen[v] = true
+		switch x := v.(type) {
+		case *ssa.Parameter:
+			return "", x == par
+		case *ssa.FieldAddr:
+			if x.X == ssa.Value(par) {
+				st := par.Type().Underlying().(*types.Pointer).Elem().Underlying().(*types.Struct)
+				return st.Field(x.Field).Name(), true
+			}
+			return fieldOf(x.X, seen)
+		case *ssa.IndexAddr:
+			return fieldOf(x.X, seen)
+		case *ssa.Field:
+			return fieldOf(x.X, seen)
+		case *ssa.Index:
+			return fieldOf(x.X, seen)
+		case *ssa.Slice:
+			return fieldOf(x.X, seen)
+		case *ssa.UnOp:
+			if x.Op == token.MUL {
+				return fieldOf(x.X, seen)
+			}
+		case *ssa.Phi:
+			for _, e := range x.Edges {
+				if f, ok := fieldOf(e, seen); ok {
+					return f, true
+				}
+			}
+		case *ssa.Call:
+			if b, isB := x.Common().Value.(*ssa.Builtin); isB && b.Name() == "append" {
+				return fieldOf(x.Common().Args[0], seen)
+			}
+		case *ssa.ChangeType:
+			return fieldOf(x.X, seen)
+		}
+		return "", false
+	}
+	note := func(target ssa.Value) {
+		f, from := fieldOf(target, map[ssa.Value]bool{})
+		if !from {
+			return
+		}
+		if f == "" {
+			precise = false
+			return
+		}
+		out[f] = true
+	}
+	if _, isPtr := par.Type().Underlying().(*types.Pointer); !isPtr {
+		return false
+	}
+	if _, isStruct := par.Type().Underlying().(*types.Pointer).Elem().Underlying().(*types.Struct); !isStruct {
+		return false
+	}
+	for _, b := range fn.Blocks {
+		for _, ins := range b.Instrs {
+			switch x := ins.(type) {
+			case *ssa.Store:
+				note(x.Addr)
+			case *ssa.MapUpdate:
+				note(x.Map)
+			case ssa.CallInstruction:
+				c := x.Common()
+				if bi, ok := c.Value.(*ssa.Builtin); ok {
+					switch bi.Name() {
+					case "copy", "clear", "delete":
+						note(c.Args[0])
+					}
+					continue
+				}
+				if c.IsInvoke() {
+					for _, a := range c.Args {
+						if _, from := fieldOf(a, map[ssa.Value]bool{}); from && isRefType(a.Type()) {
+							precise = false
+						}
+					}
+					continue
+				}
+				f := c.StaticCallee()
+				if f == nil {
+					for _, a := range c.Args {
+						if _, from := fieldOf(a, map[ssa.Value]bool{}); from && isRefType(a.Type()) {
+							precise = false
+						}
+					}
+					continue
+				}
+				name := funcName(f)
+				if w.p.InModule(f) && len(f.Blocks) > 0 {
+					for k, a := range c.Args {
+						fld, from := fieldOf(a, map[ssa.Value]bool{})
+						if !from || !w.mutParam[f][k] {
+							continue
+						}
+						if fld != "" {
+							out[fld] = true
+							continue
+						}
+						// the pointer itself is passed on
+						sub := map[string]bool{}
+						if !w.fieldsWritten(f, k, sub, busy) {
+							precise = false
+						}
+						for g := range sub {
+							out[g] = true
+						}
+					}
+					continue
+				}
+				if idxs, ok := mutatingExternal[name]; ok {
+					for _, k := range idxs {
+						if k < len(c.Args) {
+							note(c.Args[k])
+						}
+					}
+					continue
+				}
+				pure := false
+				for _, pre := range purePrefixes {
+					if strings.HasPrefix(name, pre) {
+						pure = true
+					}
+				}
+				if !pure {
+					for _, a := range c.Args {
+						if _, from := fieldOf(a, map[ssa.Value]bool{}); from && isRefType(a.Type()) {
+							if _, isStr := a.Type().Underlying().(*types.Basic); !isStr {
+								precise = false
+							}
+						}
+					}
+				}
+			}
+		}
+	}
+	return precise
 }
